@@ -5,6 +5,7 @@
 //!       DIR/<stream>.meta.json (distribution, oracle failures)
 //!   zvh run <stream>            requests on stdin → implementation responses on stdout (replay)
 //!   zvh fs-child …              internal: one extraction inside a chroot jail (spawned by the `fs` stream)
+mod mem;
 mod mkzip;
 mod pkware;
 mod prng;
@@ -12,6 +13,9 @@ mod streams;
 mod util;
 
 use std::collections::{BTreeMap, HashSet};
+
+#[global_allocator]
+static GLOBAL: mem::Counting = mem::Counting;
 use std::io::{BufRead, Write};
 
 fn main() {
@@ -102,6 +106,9 @@ fn main() {
             }
             fo.flush().unwrap();
             fi.flush().unwrap();
+            for (k, v) in st.stats() {
+                g.dist.insert(k, v);
+            }
             let mut js = String::from("{");
             js += &format!("\"stream\":{},", util::json_str(name));
             js += &format!("\"seed\":{seed},\"tier\":{},", util::json_str(&tier));
